@@ -169,7 +169,7 @@ def run(ctx):
                 check_maze(ctx, "TargetedLatticeMaze", cl, s, e, None, dict(case, s=s, e=e))
             if k % 2111 == 0:
                 ctx.sample(dict(case=case, cl=cl, n_pairs=len(pairs)))
-    n_big = 500 if ctx.quick else 12000
+    n_big = 1000 if ctx.quick else 12000
     for j in range(n_big):
         if not ctx.mine(j):
             continue
